@@ -102,6 +102,14 @@ def snapshot(ds):
     return out
 
 
+def term_key(t):
+    """terms are compared exactly, except that an rdf:XMLLiteral is compared by the namespace-resolved structure its lexical form denotes
+    (where a parser puts the namespace declarations of the literal's elements is not settled to the character)"""
+    if isinstance(t, Literal) and t.datatype == RDF.XMLLiteral:
+        return ("xml-literal", W.xml_tree_key(str(t)))
+    return lkey(t)
+
+
 def parse_as(form, text, fmt, scratch, base=None):
     ds = Dataset()
     kw = dict(format=fmt)
@@ -173,7 +181,7 @@ def run_case(case, st=None):
             return ("legal-document-rejected", "%s document rejected: %s: %s\n%s" % (fmt, type(ex).__name__, str(ex)[:300], text[:1500]))
         got = snapshot(ds)
         st["parse:" + fmt] = 1
-        r = iso(quads, got)
+        r = iso(quads, got, lit_key=term_key)
         if r is False:
             gk = sorted(str(tuple(lkey(x) if x is not None else None for x in q)) for q in got)
             ek = sorted(str(tuple(lkey(x) if x is not None else None for x in q)) for q in quads)
@@ -186,7 +194,7 @@ def run_case(case, st=None):
                 except Exception as ex:
                     return ("input-form-rejected", "%s document accepted as str but rejected as %s: %s: %s\n%s" % (fmt, form, type(ex).__name__, str(ex)[:300], text[:800]))
                 st["form:" + form] = st.get("form:" + form, 0) + 1
-                if iso(got, snapshot(d2)) is False:
+                if iso(got, snapshot(d2), lit_key=term_key) is False:
                     return ("input-form-differs", "%s document gives a different graph when handed over as %s than as str\n%s" % (fmt, form, text[:800]))
     return None
 
